@@ -729,7 +729,7 @@ BIAS_CONFIGS = [
     ("abf", ["fullSamples 10"]),
     ("metadynamics", ["hillWeight 0.1", "hillWidth 1.0", "newHillFrequency 10"]),
     ("abmd", ["forceConstant 1.0", "stoppingValue 1.5"]),
-    ("opes_metad", ["barrier 5", "newHillFrequency 10"]),
+    ("opes_metad", ["barrier 5", "newHillFrequency 10", "gaussianSigma 0.2"]),     # a positive sigma is required (unless adaptiveSigma)
     ("alb", ["centers 1.0", "updateFrequency 10"]),
 ]
 EXT_COLVAR = ["colvar {", "  name v", "  width 0.25", "  lowerBoundary 0", "  upperBoundary 2", "  extendedLagrangian on", "  extendedFluctuation 0.5",
